@@ -79,6 +79,9 @@ func c15Base(name string) (view, src, layer afero.Fs, mems []afero.Fs) {
 	case "cow":
 		b, l := afero.NewMemMapFs(), afero.NewMemMapFs()
 		return afero.NewCopyOnWriteFs(b, l), b, l, []afero.Fs{b, l}
+	case "cowre": // the same union over a base that offers no Lstat of its own (a RegexpFs that lets every name through)
+		b, l := afero.NewMemMapFs(), afero.NewMemMapFs()
+		return afero.NewCopyOnWriteFs(afero.NewRegexpFs(b, regexp.MustCompile(``)), l), b, l, []afero.Fs{b, l}
 	}
 	panic("unknown stack " + name)
 }
@@ -943,7 +946,7 @@ func c15Setup(stack string, t *c15Tree, r *corr.Rand) []string {
 	inner := strings.TrimPrefix(stack, "from-")
 	var l []string
 	place := func(p string) []string { // which prefixes receive this entry
-		if inner != "cow" {
+		if inner != "cow" && inner != "cowre" {
 			return []string{"src."}
 		}
 		if r == nil {
@@ -975,7 +978,7 @@ func c15Setup(stack string, t *c15Tree, r *corr.Rand) []string {
 	return l
 }
 
-var c15Stacks = []string{"mem", "bp", "bpabs", "ro", "re", "cow", "from-mem", "from-bp", "from-ro", "from-re", "from-cow"}
+var c15Stacks = []string{"mem", "bp", "bpabs", "ro", "re", "cow", "cowre", "from-mem", "from-bp", "from-ro", "from-re", "from-cow"}
 
 func c15FixedTree() *c15Tree {
 	t := &c15Tree{files: map[string][]byte{}, layer: map[string]bool{}, both: map[string]bool{}}
